@@ -538,6 +538,10 @@ impl Property for C01 {
             Tier::Thorough => *rng.pick(&[60u64, 400, 400, 2000, 5000]),
         };
         sc.cap_bits = if rng.chance(2) { 1024 } else if rng.chance(30) || sc.knob("arith") == 1 { 192 } else { 96 };
+        if sc.cap_bits > 192 {
+            // BigNum division is bit-by-bit: ~0.2 s per operation at 700 bits
+            sc.budget = sc.budget.min(200);
+        }
         sc.set_knob("app", if rng.chance(25) { 1 } else { 0 });
         sc
     }
@@ -554,7 +558,7 @@ impl Property for C01 {
         };
         let (spawned, bad) = crate::runner::par_find(n, |i| {
             let sc = crate::runner::make_scenario(self, seed, i, tier);
-            if parse_checked(&sc).is_err() {
+            if parse_checked(&sc).is_err() || sc.cap_bits > 192 {
                 return (0, None);
             }
             let ex = expect_of(&sc);
